@@ -24,7 +24,10 @@ LEVEL = "exploration"
 RULE = ("cases = (compiled configuration, seed). small: dimension 3..15, which of the slots 0/1/2/4 are populated, slot shapes; "
         "per case random SPD matrix (condition 1..100), couplings, slot values, starting guess and cotangents; both entry "
         "points x default/tight CG settings. fe: mesh x material x design kind, random boundary values, design, dead load. "
-        "helper: mesh x material, random displacements/states/cotangents. adjoint_space: mesh kind/order/mode, random node moves. "
+        "every solve-class evaluation rebuilds the Objective around one of five preconditioner strategies (none / stale initial "
+        "stiffness / Jacobi / identity / randomly rescaled), cycled by seed. "
+        "helper: mesh x material (J2, rate-sensitive J2, HyperViscoelastic, MultiBranch, Neohookean) x time step kind (argument "
+        "omitted, small, O(relaxation time), large), random displacements/states/cotangents. adjoint_space: mesh kind/order/mode, random node moves. "
         "Non-trivial = the forward solve moved away from its starting guess, the residual re-check passed, H is SPD and every "
         "populated slot has a non-zero reference cotangent (solve classes); yielded points present or non-affine move (helper/"
         "adjoint_space). Distinct = canonical hash of the case record.")
@@ -39,6 +42,11 @@ ASSUMPTIONS = [
     "calibrated (observed <= 5e-11 small, <= 2e-11 FE); skipped (counted) when the J2 yield set changes inside the stencil",
     "Objective closures (hessian_vec, vec_hessian, vec_jacobian_p0/1/2/4, jacobian_p_vec, jacobian_p2_vec) vs dense Jacobians: "
     "1e-11 * sum_j |J_ij||v_j| (rounding bound; observed <= 5e-16)",
+    "the IFT comparison decides however the library obtained the adjoint: CG-derived bound when the recorder saw the adjoint CG end "
+    "'interior', rounding floor alone when no adjoint CG solve was observed, vacuous only for a recorded iteration-cap exit",
+    "non-exact preconditioner strategies are SPD by construction, so the solver's CG converges; they must not change any cotangent",
+    "rate-dependent models: the energy-based helper products are not compared at dt = 0 (rate potentials divide by dt); the "
+    "rate-sensitive J2 uses exponent m = 1 so that its kinetic potential is twice differentiable at zero plastic rate (elastic points)",
     "helper VJPs vs forward-mode dense Jacobians: allowed 1e-10 * max_i sum_j |J_ji||v_j| (rounding bound; observed <= 2e-14, J2 "
     "finite kinematics); helper finite differences over a directly constructed function space: 1e-6 (observed <= 9e-10)",
     "adjoint function space vs direct construction: allowed 1e-14 * max|array| (observed 0); its coordinate derivative vs Richardson "
@@ -57,7 +65,15 @@ REQUIRED = {
         "adjoint_exit_interior": 80, "grad_qoi_compared": 20, "chain_gradient_compared": 8, "chain_steps": 16,
         "fd_through_solve": 8, "backward_after_p_mutation": 40,
         "fe_chain_gradient_compared": 2, "fe_plastic_points": 1,
-        "objective_closure_compared": 40, "helper_product_compared": 10, "helper_fd_compared": 2, "helper_yielded_points": 1,
+        "objective_closure_compared": 40,
+        "precond_none_compared": 10, "precond_stale_compared": 10, "precond_jacobi_compared": 10, "precond_identity_compared": 10,
+        "precond_perturbed_compared": 10,
+        "helper_product_compared": 60, "helper_fd_compared": 8, "helper_yielded_points": 1, "helper_evolving_points": 1,
+        "helper_dt_nonzero_j2": 6, "helper_dt_nonzero_j2_rate": 6, "helper_dt_nonzero_visco": 6, "helper_dt_nonzero_multibranch": 6,
+        "helper_dt_nonzero_hyperelastic": 2, "helper_j2_rate_dt_default": 1, "helper_visco_dt_default": 1, "helper_multibranch_dt_default": 1,
+        "helper_prod_ivs_disp_vjp_dt_nonzero": 12, "helper_prod_ivs_prev_jacobian_dt_nonzero": 12, "helper_prod_ivs_coords_vjp_dt_nonzero": 9,
+        "helper_prod_residual_ivs_vjp_dt_nonzero": 9, "helper_prod_residual_coords_vjp_dt_nonzero": 9,
+        "helper_prod_residual3_coords_vjp_dt_nonzero": 9,
         "afs_arrays_compared": 12, "afs_derivative_compared": 2,
     },
     "quick": {},
@@ -86,7 +102,9 @@ _SMALL_QUICK = [
     (12, 3, [3, 2], 4, [], "02"), (13, 2, [2, 2], 3, [2], "0124"), (15, 4, [2, 4], 8, [], "0124"), (5, 3, [2, 1], 2, [], "0"),
 ]
 _FE_QUICK = [(4, 4, "neohookean", "coords"), (4, 3, "neohookean", "density"), (3, 3, "j2_small", "coords"), (3, 3, "j2_small", "density")]
-_HELPER_QUICK = [({"kind": "structured", "nx": 3, "ny": 3}, "j2_small", 1), ({"kind": "delaunay", "nx": 3, "ny": 3, "seed": 5}, "neohookean", 2)]
+_HELPER_QUICK = [({"kind": "structured", "nx": 3, "ny": 3}, "j2_small", 1), ({"kind": "delaunay", "nx": 3, "ny": 3, "seed": 5}, "neohookean", 2),
+                 ({"kind": "structured", "nx": 3, "ny": 3}, "j2_rate", 1), ({"kind": "delaunay", "nx": 3, "ny": 3, "seed": 9}, "visco", 1),
+                 ({"kind": "structured", "nx": 3, "ny": 2}, "multibranch", 1)]
 
 
 def _small_cfgs(tier, seed):
@@ -146,12 +164,23 @@ def build_cases(tier, seed):
     helpers = list(_HELPER_QUICK)
     if not quick:
         helpers += [({"kind": "delaunay", "nx": 3, "ny": 4, "seed": 11}, "j2_small", 1), ({"kind": "structured", "nx": 3, "ny": 3}, "j2_large", 1),
-                    ({"kind": "structured", "nx": 4, "ny": 3}, "neohookean_adagio", 1), ({"kind": "delaunay", "nx": 4, "ny": 3, "seed": 3, "hole": False}, "j2_small", 2)]
+                    ({"kind": "structured", "nx": 4, "ny": 3}, "neohookean_adagio", 1), ({"kind": "delaunay", "nx": 4, "ny": 3, "seed": 3, "hole": False}, "j2_small", 2),
+                    ({"kind": "delaunay", "nx": 3, "ny": 3, "seed": 21}, "j2_rate", 2), ({"kind": "structured", "nx": 3, "ny": 3}, "visco", 2),
+                    ({"kind": "delaunay", "nx": 3, "ny": 3, "seed": 4}, "multibranch", 1)]
     for ci, (spec, mat, qdeg) in enumerate(helpers):
-        j2 = mat.startswith("j2")
-        for i in range((2 if quick else 8)):
-            cases.append({"cls": "helper", "group": "h%02d" % ci, "mesh": spec, "material": mat, "qdeg": qdeg,
-                          "cost": 40.0 if j2 else 8.0, "seed": derive_seed(seed, PROPERTY, "helper", ci, i)})
+        heavy = mat.startswith("j2") or mat in ("visco", "multibranch")
+        # the dense second-order references of the rate-dependent models are expensive to compile: first-order (state
+        # update) and second-order (residual) helper products run as separate groups; multibranch residuals: thorough only
+        if mat in ("j2_rate", "visco", "j2_large"):
+            parts = ["ivs", "res"]
+        elif mat == "multibranch":
+            parts = ["ivs_min"] if quick else ["ivs", "res"]
+        else:
+            parts = ["all"]
+        for part in parts:
+            for i in range((2 if quick else 8)):
+                cases.append({"cls": "helper", "group": "h%02d%s" % (ci, part), "mesh": spec, "material": mat, "qdeg": qdeg, "part": part,
+                              "cost": 40.0 if heavy else 8.0, "seed": derive_seed(seed, PROPERTY, "helper", ci, part, i)})
     # adjoint function space
     kinds = []
     for order in (1, 2) if quick else (1, 2, 3):
@@ -224,6 +253,22 @@ def _np(x):
     return onp.asarray(x, dtype=float)
 
 
+def _with_precond(prob, kind, x_ref, p_ref, rng):
+    """Same problem, Objective rebuilt around a (non-)exact preconditioner strategy (see gen.c07_problems)."""
+    from vlib.gen import c07_problems as gp
+    import jax.numpy as np
+    q = dict(prob)
+    q["obj"] = gp.objective_with_precond(prob, kind, np.asarray(x_ref), p_ref, rng)
+    q["precond"] = kind
+    return q
+
+
+def _precond_cycle(seed):
+    from vlib.gen.c07_problems import PRECOND_KINDS
+    off = int(seed) % len(PRECOND_KINDS)
+    return [PRECOND_KINDS[(off + j) % len(PRECOND_KINDS)] for j in range(len(PRECOND_KINDS))]
+
+
 def _exc_mechanism(e):
     if isinstance(e, TypeError) and "solve_trust_region_minimization" in str(e) and "positional argument" in str(e):
         return D6_KEY
@@ -249,9 +294,12 @@ def _adjoint_exits(res):
     return ok, n
 
 
-def _compare_slots(res, st, v, cp, p, sname, clause, mech=None, extra=None):
-    """cp: dict slot -> returned cotangent (or None); p: the parameters of the forward solve."""
+def _compare_slots(res, st, v, cp, p, sname, clause, mech=None, extra=None, direct=False):
+    """cp: dict slot -> returned cotangent (or None); p: the parameters of the forward solve.
+    direct=True: no adjoint CG solve was observed (the library obtained the adjoint some other way): the comparison still
+    decides, with the rounding floor alone -- a direct solve has no iteration tolerance to appeal to."""
     s = _settings(sname)
+    cg_tol, ratio = (0.0, 0.0) if direct else (s.cg_tol, s.cg_inexact_solve_ratio)
     ref = st.cotangents(v)
     vnorm = float(onp.linalg.norm(_np(v)))
     nz = True
@@ -274,9 +322,9 @@ def _compare_slots(res, st, v, cp, p, sname, clause, mech=None, extra=None):
             res.violate(clause, {"slot": k, "why": "shape", "got": list(got.shape), "want": list(ref[k].shape)}, mech)
             continue
         err = float(onp.linalg.norm(got - ref[k]))
-        allowed = st.allowed(k, vnorm, s.cg_tol, s.cg_inexact_solve_ratio, SAFETY, RND)
+        allowed = st.allowed(k, vnorm, cg_tol, ratio, SAFETY, RND)
         rn = float(onp.linalg.norm(ref[k]))
-        d = {"slot": k, "settings": sname, "ref_norm": rn, "cond": st.lmax / st.lmin}
+        d = {"slot": k, "settings": sname, "ref_norm": rn, "cond": st.lmax / st.lmin, "adjoint_cg_observed": not direct}
         if extra:
             d.update(extra)
         res.bound(clause + "_" + sname, err, allowed, d, mech)
@@ -369,7 +417,8 @@ def _single(res, prob, entry, sname, x0, p, p_before, p_after, vs, rng):
             res.count("adjoint_not_converged")
             continue
         cp = {k: ct[1][k] for k in (0, 1, 2, 4)} if entry == "state" else {2: ct[1]}
-        nz = _compare_slots(res, st, v, cp, p, sname, "ift_cotangent", extra={"entry": entry, "via": "vjp"})
+        nz = _compare_slots(res, st, v, cp, p, sname, "ift_cotangent", extra={"entry": entry, "via": "vjp", "precond": prob.get("precond", "none")}, direct=(nrec == 0))
+        res.count("precond_%s_compared" % prob.get("precond", "none"))
         nontrivial = nontrivial and nz
     # jax.grad of q(U(p), p) = wq.sin(U) + sum_k c_k |p_k|^2/2
     wq = rng.standard_normal(prob["n"])
@@ -391,7 +440,9 @@ def _single(res, prob, entry, sname, x0, p, p_before, p_after, vs, rng):
     except Exception as e:  # noqa
         res.violate("derivative_exists", {"stage": "jax.grad", "entry": entry, "exc": "%s: %s" % (type(e).__name__, str(e)[:200])}, _exc_mechanism(e))
         return {"st": st, "nontrivial": False}
-    ok, _ = _adjoint_exits(res)
+    ok, nrec2 = _adjoint_exits(res)
+    if nrec2 == 0:
+        res.count("adjoint_solve_not_observed")
     st2 = ift.StepRef(prob["derivs"](U2, p), p)
     if ok and float(onp.linalg.norm(st2.g)) < s.tol and st2.finite() and st2.lmin > 0:
         vq = wq * onp.cos(_np(U2))
@@ -404,7 +455,7 @@ def _single(res, prob, entry, sname, x0, p, p_before, p_after, vs, rng):
                 cp[k] = c
         else:
             cp = {2: _np(gr[1]) - cq[2] * _np(p[2])}
-        _compare_slots(res, st2, vq, cp, p, sname, "ift_cotangent", extra={"entry": entry, "via": "grad"})
+        _compare_slots(res, st2, vq, cp, p, sname, "ift_cotangent", extra={"entry": entry, "via": "grad", "precond": prob.get("precond", "none")}, direct=(nrec2 == 0))
         res.count("grad_qoi_compared")
     return {"st": st, "nontrivial": bool(nontrivial)}
 
@@ -528,10 +579,11 @@ def _chain(res, prob, entry, sname, x0, theta, app, scales, vs, w, clause="chain
         steps.append(st)
         if use_upd:
             S = Ss[k]
-    if not ok or nrec < K:
-        res.count("adjoint_not_converged" if not ok else "adjoint_solve_not_observed")
-        if not ok:
-            return None
+    if not ok:          # a recorded adjoint solve ran into its iteration cap: the tolerance hypothesis fails
+        res.count("adjoint_not_converged")
+        return None
+    if nrec == 0:       # no adjoint CG solve observed at all: the comparison still decides, with the rounding floor alone
+        res.count("adjoint_solve_not_observed")
     lay_p = params(0, th0, th0.get(1))
     lay, ntheta = {}, 0
     for sl in dslots:
@@ -546,7 +598,7 @@ def _chain(res, prob, entry, sname, x0, theta, app, scales, vs, w, clause="chain
             got[a:b] = _np(g).reshape(-1)
     allowed = 0.0
     for k, st in enumerate(steps):
-        rho = max(s.cg_tol, s.cg_inexact_solve_ratio * info["vt_norm"][k])
+        rho = max(s.cg_tol, s.cg_inexact_solve_ratio * info["vt_norm"][k]) if nrec > 0 else 0.0
         allowed += info["amp"][k] * (SAFETY * rho + RND * info["vt_norm"][k]) / st.lmin
     allowed += 100.0 * info["self_mismatch"]
     err = float(onp.linalg.norm(got - gref))
@@ -567,6 +619,7 @@ def _chain(res, prob, entry, sname, x0, theta, app, scales, vs, w, clause="chain
     res.bound(clause + "_" + sname, err, allowed, {"entry": entry, "settings": sname, "steps": K, "ref_norm": info["scale"],
                                      "reference_forward_vs_reverse": info["self_mismatch"]}, mech)
     res.count("chain_gradient_compared")
+    res.count("precond_%s_compared" % prob.get("precond", "none"))
     res.count("chain_steps", K)
     # per-slot breakdown for the evidence
     for sl in lay:
@@ -613,9 +666,12 @@ def _small_eval(res, prob, cfg, seed, knobs, combos, fd=True):
     vscale = float(knobs.get("vscale", 1.0))
     nconv, nnt = 0, 0
     last = None
-    for entry, sname in combos:
+    base_prob = prob
+    kinds = _precond_cycle(seed)
+    for j, (entry, sname) in enumerate(combos):
         if entry == "design" and p[2] is None:
             continue
+        prob = _with_precond(base_prob, knobs.get("precond", kinds[j % len(kinds)]), onp.zeros(cfg["n"]), p_prev, rng)
         vs = [vscale * rng.standard_normal(cfg["n"]) * 10.0 ** rng.uniform(-2, 2) for _ in range(2)]
         if kind == "zero_cotangent":
             vs = [onp.zeros(cfg["n"]), 1e-11 * rng.standard_normal(cfg["n"])]
@@ -629,6 +685,7 @@ def _small_eval(res, prob, cfg, seed, knobs, combos, fd=True):
             nnt += int(out["nontrivial"])
             if entry == "state" and sname == "tight":
                 last = out["st"]
+    prob = base_prob
     # finite differences through plain forward solves vs a tight pull-back
     if fd and last is not None and res.status == "held":
         s = _settings("tight")
@@ -726,8 +783,12 @@ def _run_small_chain(case, res):
     loads = onp.sort(rng.uniform(0.3, 1.2, size=K))
     scales = [{0: float(loads[k]), 2: 1.0, 4: float(k + 1)} for k in range(K)]
     nt = 0
-    for sname in ("default", "tight"):
-        out = _chain(res, prob, "state", sname, x0, theta, a, scales, vs, w)
+    from vlib.gen import c07_problems as gp
+    kinds = _precond_cycle(case["seed"])
+    p_ref = gp.make_params(theta, a)
+    for j, sname in enumerate(("default", "tight")):
+        pk = _with_precond(prob, kinds[j], onp.zeros(cfg["n"]), p_ref, rng)
+        out = _chain(res, pk, "state", sname, x0, theta, a, scales, vs, w)
         if out is not None and out["nontrivial"]:
             nt += 1
     res.count("chain_cases")
@@ -754,8 +815,12 @@ def _run_small_legacy(case, res, mutate):
         loads = onp.ones(K) * rng.uniform(0.5, 1.2)
     scales = [{0: float(loads[k]), 2: float(cs[k]), 4: 1.0} for k in range(K)]
     nt = 0
-    for sname in ("tight", "default"):
-        out = _chain(res, prob, "design", sname, x0, theta, a, scales, vs, None,
+    from vlib.gen import c07_problems as gp
+    kinds = _precond_cycle(case["seed"])
+    p_ref = gp.make_params(theta, a)
+    for j, sname in enumerate(("tight", "default")):
+        pk = _with_precond(prob, kinds[j], onp.zeros(cfg["n"]), p_ref, rng)
+        out = _chain(res, pk, "design", sname, x0, theta, a, scales, vs, None,
                      clause="legacy_chain_bc_advanced" if mutate else "chain_gradient", legacy_mutate=mutate)
         if out is not None and out["nontrivial"]:
             nt += 1
@@ -793,8 +858,12 @@ def _run_fe(case, res):
     res.count("fe_design_" + cfg["design"])
     nt = 0
     out_t = None
-    for sname in ("tight", "default"):
-        out = _chain(res, prob, "state", sname, x0, theta, app, scales, vs, w, clause="fe_chain_gradient")
+    kinds = _precond_cycle(case["seed"])
+    ref_vals = {0: 0.0 * theta[0], 1: fe["state0"], 2: theta[2], 4: onp.asarray(0.0)}
+    p_ref = gp.make_params(ref_vals, app)       # undeformed, unloaded: the classical "initial stiffness"
+    for j, sname in enumerate(("tight", "default")):
+        pk = _with_precond(prob, kinds[j], x0, p_ref, rng)
+        out = _chain(res, pk, "state", sname, x0, theta, app, scales, vs, w, clause="fe_chain_gradient")
         if out is not None:
             res.count("fe_chain_gradient_compared")
             if out["nontrivial"]:
@@ -823,6 +892,7 @@ def _run_fe(case, res):
         pv2[4] = 0.5 * vals[4]
         p_next = gp.make_params(pv2, app)
         xg = np.asarray(_np(out_t["Us"][Kl - 1])) if Kl > 0 else np.asarray(x0)
+        nsing = 0
         for entry in ("state", "design"):
             for sname in (("tight", "default") if entry == "design" else ("tight",)):
                 vv = [rng.standard_normal(n) for _ in range(2)]
@@ -830,7 +900,8 @@ def _run_fe(case, res):
                     pb, pa = p_prev, p_next
                 else:
                     pb, pa = ift.with_slot(p, 2, p_prev[2]), ift.with_slot(p, 2, p_next[2])
-                o1 = _single(res, prob, entry, sname, xg, p, pb, pa, vv, rng)
+                nsing += 1
+                o1 = _single(res, _with_precond(prob, kinds[(1 + nsing) % len(kinds)], x0, p_ref, rng), entry, sname, xg, p, pb, pa, vv, rng)
                 if o1 is not None and o1["nontrivial"]:
                     nt += 1
         # finite differences through forward solves (design + bc + time direction)
@@ -858,6 +929,12 @@ def _run_fe(case, res):
 # -------------------------------------------------------------------------------------------------------- helpers
 
 _HELPERS = {}
+_TAU = {"visco": 0.5, "multibranch": 1.0, "j2_rate": 1.0}
+_DT_KINDS = ("default", "small", "tau", "large")
+
+
+def _mat_kind(material):
+    return {"j2_small": "j2", "j2_large": "j2", "j2_rate": "j2_rate", "visco": "visco", "multibranch": "multibranch"}.get(material, "hyperelastic")
 
 
 def _helper_setup(case):
@@ -878,6 +955,8 @@ def _helper_setup(case):
     shapeOnRef = Interpolants.compute_shapes(mesh.parentElement, quad.xigauss)
     H = {"mesh": mesh, "quad": quad, "fs": fs, "mat": mat, "mf": mf}
     H["ivf"] = MI.create_ivs_update_inverse_functions(fs, "plane strain", mat)
+    stateful = int(onp.asarray(mf.compute_initial_state()).size) > 0
+    H["stateful"] = stateful
 
     def mech_adj(X):
         return Mechanics.create_mechanics_functions(AFS.construct_function_space_for_adjoint(X, shapeOnRef, mesh, quad), "plane strain", mat)
@@ -885,25 +964,29 @@ def _helper_setup(case):
     def mech_direct(X):   # independent of the adjoint function space: the library's ordinary constructor on the moved mesh
         return Mechanics.create_mechanics_functions(FS.construct_function_space(Mesh.mesh_with_coords(mesh, X), quad), "plane strain", mat)
 
-    def energy_pd(U, p, ivs, X):
-        return mech_adj(X).compute_strain_energy(U, ivs)
+    # the user-supplied energies of the residual helpers: their parameter object q is the time step
+    def energy_pd(U, q, ivs, X):
+        return mech_adj(X).compute_strain_energy(U, ivs, q)
 
-    def energy_3(U, p, X):
-        return mech_adj(X).compute_strain_energy(U, p)
+    def energy_3(U, q, X):            # q = (ivs, dt)
+        return mech_adj(X).compute_strain_energy(U, q[0], q[1])
 
     H["rf_pd"] = MI.create_path_dependent_residual_inverse_functions(energy_pd)
     H["rf"] = MI.create_residual_inverse_functions(energy_3)
     G = jax.grad(energy_pd, 0)
-    upd_on = lambda U, s: mf.compute_updated_internal_variables(U, s)
-    upd_X = lambda U, s, X: mech_adj(X).compute_updated_internal_variables(U, s)
-    if case["material"].startswith("j2"):
-        H["dense"] = jax.jit(lambda U, s, X: {
-            "upd_s": jax.jacfwd(upd_on, 1)(U, s), "upd_u": jax.jacfwd(upd_on, 0)(U, s), "upd_x": jax.jacfwd(upd_X, 2)(U, s, X),
-            "res_s": jax.jacfwd(G, 2)(U, None, s, X), "res_x": jax.jacfwd(G, 3)(U, None, s, X)})
+    # dense references: forward mode through the library's own update / energy at the SAME dt
+    upd_on = lambda U, s, dt: mf.compute_updated_internal_variables(U, s, dt)
+    upd_X = lambda U, s, X, dt: mech_adj(X).compute_updated_internal_variables(U, s, dt)
+    # (two separately compiled pieces so that a case can ask for the first-order or the second-order part only)
+    H["dense_ivs"] = jax.jit(lambda U, s, X, dt: {
+        "upd_s": jax.jacfwd(upd_on, 1)(U, s, dt), "upd_u": jax.jacfwd(upd_on, 0)(U, s, dt), "upd_x": jax.jacfwd(upd_X, 2)(U, s, X, dt)})
+    H["dense_ivs_min"] = jax.jit(lambda U, s, X, dt: {"upd_s": jax.jacfwd(upd_on, 1)(U, s, dt), "upd_u": jax.jacfwd(upd_on, 0)(U, s, dt)})
+    if stateful:
+        H["dense_res"] = jax.jit(lambda U, s, X, dt: {"res_s": jax.jacfwd(G, 2)(U, dt, s, X), "res_x": jax.jacfwd(G, 3)(U, dt, s, X)})
     else:
-        H["dense"] = jax.jit(lambda U, s, X: {"res_x": jax.jacfwd(G, 3)(U, None, s, X)})
-    H["direct_upd"] = jax.jit(lambda U, s, X: mech_direct(X).compute_updated_internal_variables(U, s))
-    H["direct_res"] = jax.jit(lambda U, s, X: jax.grad(lambda u: mech_direct(X).compute_strain_energy(u, s))(U))
+        H["dense_res"] = jax.jit(lambda U, s, X, dt: {"res_x": jax.jacfwd(G, 3)(U, dt, s, X)})
+    H["direct_upd"] = jax.jit(lambda U, s, X, dt: mech_direct(X).compute_updated_internal_variables(U, s, dt))
+    H["direct_res"] = jax.jit(lambda U, s, X, dt: jax.grad(lambda u: mech_direct(X).compute_strain_energy(u, s, dt))(U))
     H["upd"] = jax.jit(upd_on)
     _HELPERS[key] = H
     return H
@@ -915,106 +998,159 @@ def _prodbound(J, v):
     return float(onp.max(onp.abs(v).reshape(-1) @ J)) if J.size else 0.0
 
 
+def _finite(*arrs):
+    return all(bool(onp.all(onp.isfinite(a))) for a in arrs)
+
+
 def _run_helper(case, res):
+    """Every MechanicsInverse helper product, for every time-step kind (argument omitted = library default 0.0, small,
+    O(relaxation time), large), against forward-mode dense Jacobians of the library's own update / energy at the same dt."""
     import jax.numpy as np
     from vlib.oracles import c07_ift as ift
     H = _helper_setup(case)
     rng = rng_of(case["seed"])
     mesh, mf = H["mesh"], H["mf"]
     c = _np(mesh.coords)
-    j2 = case["material"].startswith("j2")
+    material = case["material"]
+    mk = _mat_kind(material)
+    j2 = material.startswith("j2")
+    stateful = H["stateful"]
+    tau = _TAU.get(material, 1.0)
     amp = rng.uniform(0.008, 0.05) if j2 else rng.uniform(0.05, 0.2)
     st0 = mf.compute_initial_state()
     G0 = amp * rng.standard_normal((2, 2))
     U0 = np.asarray(c @ G0.T + 0.2 * amp * rng.standard_normal(c.shape))
-    st1 = H["upd"](U0, st0) if j2 else st0
+    st1 = H["upd"](U0, st0, tau * rng.uniform(0.5, 2.0)) if stateful else st0
     U = np.asarray(_np(U0) * rng.uniform(0.6, 1.5) + 0.3 * amp * rng.standard_normal(c.shape))
     hmin = float(onp.sqrt(onp.min(onp.abs(_tri_areas(c, onp.asarray(mesh.conns)[:, onp.asarray(mesh.parentElement.vertexNodes)])))))
     X = np.asarray(c + 0.1 * hmin * rng.uniform(-1, 1, size=c.shape))
     ne, nq, ns = (int(z) for z in st1.shape)
-    dense = {k: _np(v) for k, v in H["dense"](U, st1, X).items()}
-    if not all(bool(onp.all(onp.isfinite(v))) for v in dense.values()):
-        # the sampled displacement inverted an element (log J undefined): the energy is not smooth there
-        res.vacuous("energy derivatives not finite at the sampled state (inadmissible deformation)")
-        return res
     TOL = HELPER_TOL
-    if j2:
-        st2 = _np(H["upd"](U, st1))
-        ny = int(onp.sum(st2[..., 0] > _np(st1)[..., 0] + 1e-12))
-        res.count("helper_yielded_points", ny)
-        res.count("helper_elastic_points", ne * nq - ny)
-        # (1) d(new ivs)/d(old ivs): block diagonal per quadrature point
-        J1 = _np(H["ivf"].ivs_update_jac_ivs_prev(U, st1))
-        ref = dense["upd_s"]
-        blk = onp.stack([[ref[e, q, :, e, q, :] for q in range(nq)] for e in range(ne)])
-        off = ref.copy()
-        for e in range(ne):
-            for q in range(nq):
-                off[e, q, :, e, q, :] = 0.0
-        sc = max(1.0, float(onp.max(onp.abs(blk))))
-        res.bound("helper_ivs_prev_jacobian", float(onp.max(onp.abs(J1 - blk))) if J1.shape == blk.shape else float("inf"), TOL * sc, {"shape": list(J1.shape)})
-        res.expect("helper_ivs_prev_offdiagonal_zero", bool(onp.all(off == 0.0)), {"max": float(onp.max(onp.abs(off)))})
-        res.count("helper_product_compared")
+    part = case.get("part", "all")
+    do_ivs = stateful and part in ("all", "ivs", "ivs_min")
+    do_coords = part != "ivs_min"      # 'ivs_min': displacement and previous-state products only (cheapest compile)
+    do_res = part in ("all", "res")
+    rate_dependent = mk in ("j2_rate", "visco", "multibranch")
+    res.count("helper_material_" + mk)
+    if stateful and not _finite(_np(st1)):
+        res.vacuous("pre-state not finite (inadmissible deformation)")
+        return res
+    if stateful:
+        res.nontrivial = bool(onp.max(onp.abs(_np(st1) - _np(st0))) > 1e-8)
+    else:
+        res.nontrivial = True
+    ncmp = 0
+    for kind in _DT_KINDS:
+        dt = {"default": 0.0, "small": 1e-3 * tau * rng.uniform(0.5, 2.0), "tau": tau * rng.uniform(0.5, 2.0), "large": 1e2 * tau * rng.uniform(0.5, 2.0)}[kind]
+        ex = () if kind == "default" else (dt,)          # 'default': the helper is called WITHOUT its optional dt argument
+        dense = {}
+        if do_ivs:
+            dense.update({k: _np(v) for k, v in H["dense_ivs" if do_coords else "dense_ivs_min"](U, st1, X, dt).items()})
+        res_here = do_res and not (rate_dependent and dt == 0.0)   # rate potentials divide by dt: no smooth energy at dt = 0
+        if do_res and not res_here:
+            res.count("helper_energy_products_skipped_rate_model_at_dt0")
+        if res_here:
+            dense.update({k: _np(v) for k, v in H["dense_res"](U, st1, X, dt).items()})
+        tag = {"kind": kind, "dt": dt, "material": material}
+
+        def compare(name, got, ref, J, v):
+            nonlocal ncmp
+            if not _finite(ref, J):
+                res.count("helper_reference_not_finite")      # e.g. rate potentials at dt = 0 (0/0): no smooth reference
+                return False
+            got = _np(got)
+            ok = got.shape == ref.shape
+            res.bound("helper_" + name, float(onp.max(onp.abs(got - ref))) if ok else float("inf"), TOL * max(_prodbound(J, v), 1e-300),
+                      dict(tag, scale=float(onp.max(onp.abs(ref))) if ref.size else 0.0))
+            res.count("helper_product_compared")
+            res.count("helper_prod_" + name)
+            res.count("helper_%s_dt_%s" % (mk, kind))
+            if kind != "default":
+                res.count("helper_dt_nonzero_" + mk)
+                res.count("helper_prod_%s_dt_nonzero" % name)
+            ncmp += 1
+            return True
+
+        vx = rng.standard_normal(c.shape)
+        vxj = np.asarray(vx)
         av = rng.standard_normal(st1.shape)
         avj = np.asarray(av)
-        # (2) vjp w.r.t. displacements
-        v2 = _np(H["ivf"].ivs_update_jac_disp_vjp(U, st1, avj))
-        r2 = onp.einsum("eqs,eqsnd->nd", av, dense["upd_u"])
-        res.bound("helper_ivs_disp_vjp", float(onp.max(onp.abs(v2 - r2))), TOL * max(_prodbound(dense["upd_u"], av), 1e-300), {"scale": float(onp.max(onp.abs(r2)))})
-        res.count("helper_product_compared")
-        # (3) vjp w.r.t. coordinates (at moved coordinates X; U, state as on the original mesh -- the helper takes coords explicitly)
-        v3 = _np(H["ivf"].ivs_update_jac_coords_vjp(U, st1, X, avj))
-        r3 = onp.einsum("eqs,eqsnd->nd", av, dense["upd_x"])
-        res.bound("helper_ivs_coords_vjp", float(onp.max(onp.abs(v3 - r3))), TOL * max(_prodbound(dense["upd_x"], av), 1e-300), {"scale": float(onp.max(onp.abs(r3)))})
-        res.count("helper_product_compared")
-        # (4) path-dependent residual helpers
-        vx = rng.standard_normal(c.shape)
-        vxj = np.asarray(vx)
-        r4 = _np(H["rf_pd"].residual_jac_ivs_prev_vjp(U, None, st1, X, vxj))
-        ref4 = onp.einsum("nd,ndeqs->eqs", vx, dense["res_s"])
-        res.bound("helper_residual_ivs_vjp", float(onp.max(onp.abs(r4 - ref4))), TOL * max(_prodbound(dense["res_s"], vx), 1e-300), {"scale": float(onp.max(onp.abs(ref4)))})
-        res.count("helper_product_compared")
-        r5 = _np(H["rf_pd"].residual_jac_coords_vjp(U, None, st1, X, vxj))
-        ref5 = onp.einsum("nd,ndme->me", vx, dense["res_x"])
-        res.bound("helper_residual_coords_vjp", float(onp.max(onp.abs(r5 - ref5))), TOL * max(_prodbound(dense["res_x"], vx), 1e-300), {"scale": float(onp.max(onp.abs(ref5)))})
-        res.count("helper_product_compared")
-        res.nontrivial = ny > 0
-    else:
-        vx = rng.standard_normal(c.shape)
-        vxj = np.asarray(vx)
-        v3 = None
-        r5 = _np(H["rf_pd"].residual_jac_coords_vjp(U, None, st1, X, vxj))
-        ref5 = onp.einsum("nd,ndme->me", vx, dense["res_x"])
-        res.bound("helper_residual_coords_vjp", float(onp.max(onp.abs(r5 - ref5))), TOL * max(_prodbound(dense["res_x"], vx), 1e-300), {"scale": float(onp.max(onp.abs(ref5)))})
-        res.count("helper_product_compared")
-        res.nontrivial = True
-    # (5) non path-dependent residual helper (state passed as the parameter object)
-    r6 = _np(H["rf"].residual_jac_coords_vjp(U, st1, X, vxj))
-    res.bound("helper_residual3_coords_vjp", float(onp.max(onp.abs(r6 - ref5))), TOL * max(_prodbound(dense["res_x"], vx), 1e-300), {})
-    res.count("helper_product_compared")
-    # (6) Richardson finite differences over a function space constructed directly on the moved mesh
-    dX = rng.standard_normal(c.shape)
-    dX /= onp.linalg.norm(dX)
-    hh = 1e-4 * hmin
-    Xn = _np(X)
-    fdr, _ = ift.richardson_central(lambda t: float(onp.sum(vx * _np(H["direct_res"](U, st1, np.asarray(Xn + t * dX))))), hh)
-    lib = float(onp.sum(r5 * dX))
-    res.bound("helper_fd_residual_coords", abs(lib - fdr), HELPER_FD_TOL * float(onp.linalg.norm(ref5)) + 1e-12, {"lib": lib, "fd": fdr})
-    res.count("helper_fd_compared")
-    if j2:
-        act = []
+        v3 = r3 = None
+        if do_ivs:
+            st2 = _np(H["upd"](U, st1, dt))
+            if j2:
+                ny = int(onp.sum(st2[..., 0] > _np(st1)[..., 0] + 1e-12))
+                res.count("helper_yielded_points", ny)
+                res.count("helper_elastic_points", ne * nq - ny)
+            elif kind != "default":
+                res.count("helper_evolving_points", int(onp.sum(onp.max(onp.abs(st2 - _np(st1)), axis=-1) > 1e-10)))
+            # (1) d(new ivs)/d(old ivs): block diagonal per quadrature point
+            ref = dense["upd_s"]
+            if _finite(ref):
+                J1 = _np(H["ivf"].ivs_update_jac_ivs_prev(U, st1, *ex))
+                blk = onp.stack([[ref[e, q, :, e, q, :] for q in range(nq)] for e in range(ne)])
+                off = ref.copy()
+                for e in range(ne):
+                    for q in range(nq):
+                        off[e, q, :, e, q, :] = 0.0
+                sc = max(1.0, float(onp.max(onp.abs(blk))))
+                res.bound("helper_ivs_prev_jacobian", float(onp.max(onp.abs(J1 - blk))) if J1.shape == blk.shape else float("inf"), TOL * sc * ns, dict(tag, shape=list(J1.shape)))
+                res.expect("helper_ivs_prev_offdiagonal_zero", bool(onp.all(off == 0.0)), dict(tag, max=float(onp.max(onp.abs(off)))))
+                res.count("helper_product_compared")
+                res.count("helper_prod_ivs_prev_jacobian")
+                res.count("helper_%s_dt_%s" % (mk, kind))
+                if kind != "default":
+                    res.count("helper_dt_nonzero_" + mk)
+                    res.count("helper_prod_ivs_prev_jacobian_dt_nonzero")
+            else:
+                res.count("helper_reference_not_finite")
+            # (2) vjp w.r.t. displacements
+            compare("ivs_disp_vjp", H["ivf"].ivs_update_jac_disp_vjp(U, st1, avj, *ex), onp.einsum("eqs,eqsnd->nd", av, dense["upd_u"]), dense["upd_u"], av)
+            # (3) vjp w.r.t. coordinates (moved coordinates X are an explicit argument of the helper)
+            if do_coords:
+                r3 = onp.einsum("eqs,eqsnd->nd", av, dense["upd_x"])
+                v3 = _np(H["ivf"].ivs_update_jac_coords_vjp(U, st1, X, avj, *ex))
+                if not compare("ivs_coords_vjp", v3, r3, dense["upd_x"], av):
+                    v3 = None
+        # (4) path-dependent residual helpers (their parameter object carries dt)
+        if res_here and stateful:
+            compare("residual_ivs_vjp", H["rf_pd"].residual_jac_ivs_prev_vjp(U, dt, st1, X, vxj), onp.einsum("nd,ndeqs->eqs", vx, dense["res_s"]), dense["res_s"], vx)
+        ok5 = False
+        if res_here:
+            ref5 = onp.einsum("nd,ndme->me", vx, dense["res_x"])
+            r5 = _np(H["rf_pd"].residual_jac_coords_vjp(U, dt, st1, X, vxj))
+            ok5 = compare("residual_coords_vjp", r5, ref5, dense["res_x"], vx)
+            # (5) non path-dependent residual helper (state and dt inside the parameter object)
+            compare("residual3_coords_vjp", H["rf"].residual_jac_coords_vjp(U, (st1, dt), X, vxj), ref5, dense["res_x"], vx)
+        # (6) Richardson finite differences over a function space constructed directly on the moved mesh, same dt
+        if kind in ("default", "tau"):
+            dX = rng.standard_normal(c.shape)
+            dX /= onp.linalg.norm(dX)
+            hh = 1e-4 * hmin
+            Xn = _np(X)
+            if ok5:
+                fdr, _ = ift.richardson_central(lambda t: float(onp.sum(vx * _np(H["direct_res"](U, st1, np.asarray(Xn + t * dX), dt)))), hh)
+                lib = float(onp.sum(r5 * dX))
+                if math.isfinite(fdr):
+                    res.bound("helper_fd_residual_coords", abs(lib - fdr), HELPER_FD_TOL * float(onp.linalg.norm(ref5)) + 1e-12, dict(tag, lib=lib, fd=fdr))
+                    res.count("helper_fd_compared")
+            if do_ivs and v3 is not None:
+                act = []
 
-        def phi(t):
-            s2 = _np(H["direct_upd"](U, st1, np.asarray(Xn + t * dX)))
-            act.append(s2[..., 0] > _np(st1)[..., 0] + 1e-12)
-            return float(onp.sum(av * s2))
-        fdu, _ = ift.richardson_central(phi, hh)
-        if all(onp.array_equal(act[0], a) for a in act[1:]):
-            lib = float(onp.sum(v3 * dX))
-            res.bound("helper_fd_ivs_coords", abs(lib - fdu), HELPER_FD_TOL * float(onp.linalg.norm(r3)) + 1e-12, {"lib": lib, "fd": fdu})
-            res.count("helper_fd_compared")
-        else:
-            res.count("fd_skipped_yield_set_changed")
+                def phi(t):
+                    s2 = _np(H["direct_upd"](U, st1, np.asarray(Xn + t * dX), dt))
+                    if j2:
+                        act.append(s2[..., 0] > _np(st1)[..., 0] + 1e-12)
+                    return float(onp.sum(av * s2))
+                fdu, _ = ift.richardson_central(phi, hh)
+                if all(onp.array_equal(act[0], a) for a in act[1:]):
+                    lib = float(onp.sum(v3 * dX))
+                    res.bound("helper_fd_ivs_coords", abs(lib - fdu), HELPER_FD_TOL * float(onp.linalg.norm(r3)) + 1e-12, dict(tag, lib=lib, fd=fdu))
+                    res.count("helper_fd_compared")
+                else:
+                    res.count("fd_skipped_yield_set_changed")
+    if ncmp == 0 and res.status == "held":
+        res.vacuous("no helper product had a finite dense reference (inadmissible deformation)")
     return res
 
 
@@ -1102,7 +1238,7 @@ def finalize(results, tier):
         if "cfg" in c:
             key += ":" + ",".join("%s=%s" % (k, c["cfg"][k]) for k in sorted(c["cfg"]) if k != "kind")
         elif c.get("cls") == "helper":
-            key += ":%s:%s:q%s" % (c["mesh"].get("kind"), c.get("material"), c.get("qdeg"))
+            key += ":%s:%s:q%s:%s" % (c["mesh"].get("kind"), c.get("material"), c.get("qdeg"), c.get("part", "all"))
         elif c.get("cls") == "adjoint_space":
             key += ":order%s:%s:%s" % (c.get("order"), c.get("mode"), c.get("kind"))
         cfgs[key] = cfgs.get(key, 0) + 1
